@@ -1,4 +1,4 @@
-\* C08 thorough, code as is: epochs (lock expiry), degraded mode, 1 lock, 2 tombstones
+\* C08 thorough, code as is: epochs (lock expiry), read-only flips, 1 lock, 2 tombstones
 SPECIFICATION Spec
 CONSTANTS
   NS = 2
@@ -6,7 +6,7 @@ CONSTANTS
   BugH6 = TRUE
   CatSet = "c08x"
   Ops = {"Put", "Bcast", "GC", "Epoch", "SetMode"}
-  Modes = {"rw", "ro", "dro"}
+  Modes = {"rw", "ro"}
   HealthyLock = FALSE
   MaxInFlight = 2
   Scenario = "none"
